@@ -99,14 +99,14 @@ Lemma dc_app now a b :
   match drop_closed now a with [] => drop_closed now b | l => l ++ b end.
 Proof.
   induction a as [|x r IH]; cbn [app drop_closed]; [destruct (drop_closed now b); reflexivity|].
-  destruct x as [t|f]; [reflexivity|].
+  destruct x as [t|s0 f]; [reflexivity|].
   destruct (now <? f); [reflexivity|apply IH].
 Qed.
 
 Lemma dc_idem now a : drop_closed now (drop_closed now a) = drop_closed now a.
 Proof.
   induction a as [|x r IH]; cbn [drop_closed]; [reflexivity|].
-  destruct x as [t|f]; [reflexivity|].
+  destruct x as [t|s0 f]; [reflexivity|].
   destruct (now <? f) eqn:E; [cbn [drop_closed]; rewrite E; reflexivity|apply IH].
 Qed.
 
@@ -114,7 +114,7 @@ Lemma dc_mono now now' a : now <= now' ->
   drop_closed now' (drop_closed now a) = drop_closed now' a.
 Proof.
   intros Hle. induction a as [|x r IH]; cbn [drop_closed]; [reflexivity|].
-  destruct x as [t|f]; [reflexivity|].
+  destruct x as [t|s0 f]; [reflexivity|].
   destruct (now <? f) eqn:E; [reflexivity|].
   rewrite IH. apply Z.ltb_ge in E.
   destruct (now' <? f) eqn:E'; [apply Z.ltb_lt in E'; lia|reflexivity].
@@ -123,7 +123,7 @@ Qed.
 Lemma an_dc now f a : abs_next now f a = abs_next now f (drop_closed now a).
 Proof.
   induction a as [|x r IH]; cbn [drop_closed abs_next]; [reflexivity|].
-  destruct x as [t|g]; [reflexivity|].
+  destruct x as [t|s0 g]; [reflexivity|].
   destruct (now <? g) eqn:E; [cbn [abs_next]; rewrite E; reflexivity|apply IH].
 Qed.
 
@@ -131,7 +131,7 @@ Lemma an_app_ok now f1 f2 a b a' t :
   abs_next now f1 a = (a', t, true) -> abs_next now f2 (a ++ b) = (a' ++ b, t, true).
 Proof.
   induction a as [|x r IH]; cbn [app abs_next]; [discriminate|].
-  destruct x as [u|g].
+  destruct x as [u|s0 g].
   - intros H; inversion H; subst; reflexivity.
   - destruct (now <? g); [intros H; inversion H; subst; reflexivity|apply IH].
 Qed.
@@ -141,7 +141,7 @@ Lemma an_fail now f a a' t :
 Proof.
   induction a as [|x r IH]; cbn [abs_next drop_closed].
   - intros H; inversion H; auto.
-  - destruct x as [u|g]; [discriminate|].
+  - destruct x as [u|s0 g]; [discriminate|].
     destruct (now <? g); [discriminate|apply IH].
 Qed.
 
